@@ -28,6 +28,11 @@ def tasks(tier, seed):
     out = [dict(p, opts={}) for p in V]
     out.append({"family": "SPLIT", "id": text_id(SPLIT), "text": SPLIT, "opts": {"split": "A"}})
     out.append({"family": "SPLIT", "id": text_id(SPLIT + "B"), "text": SPLIT, "opts": {"split": "B"}})
+    from . import c13
+    for text in c13.MODELS:
+        import re
+        for comp in sorted(set(re.findall(r'expressions\("([^"]+)"\)', text))):
+            out.append({"family": "SPLIT", "id": text_id(text, "jax-" + comp), "text": text, "opts": {"split": comp}})
     return out + witness_tasks(PROP)
 
 
